@@ -167,24 +167,31 @@ func runOne(spec RunSpec, verbose bool) *RunResult {
 	if n := os.Getenv("SYMGO_WORKERS"); n != "" {
 		fmt.Sscan(n, &workers)
 	}
-	// cross-checked in the thorough tier: every assert / cover / frozen-write obligation, and an evenly spaced sample of
-	// at most 24 of the (often thousands of) no-panic / unwinding obligations of the run
+	// cross-checked in the thorough tier: every cover / frozen-write obligation, an evenly spaced sample of at most 48 of
+	// the run's assert obligations and of at most 24 of its (often thousands of) no-panic / unwinding obligations
 	crossPick := make([]bool, len(obls))
-	var routine []int
+	var routine, asserts []int
 	for i, o := range obls {
-		if o.Kind == "panic" || o.Kind == "unwind" {
+		switch o.Kind {
+		case "panic", "unwind":
 			routine = append(routine, i)
-		} else {
+		case "assert":
+			asserts = append(asserts, i)
+		default:
 			crossPick[i] = true
 		}
 	}
-	step := (len(routine) + 23) / 24
-	if step < 1 {
-		step = 1
+	sample := func(idx []int, n int) {
+		step := (len(idx) + n - 1) / n
+		if step < 1 {
+			step = 1
+		}
+		for k := 0; k < len(idx); k += step {
+			crossPick[idx[k]] = true
+		}
 	}
-	for k := 0; k < len(routine); k += step {
-		crossPick[routine[k]] = true
-	}
+	sample(routine, 24)
+	sample(asserts, 48)
 	var wg sync.WaitGroup
 	var mu sync.Mutex
 	next := 0
